@@ -21,11 +21,11 @@ CHECKS = {
  "C04": ("ilv+seq", BASE + " with a history oracle on step stamps; " + SEQ,
          "Deleter, readers, worker and sweeper under every schedule up to the bound: no read invoked after delete(k) returned sees the deleted value, the acknowledged delete leaves no entry/charge, the key can be put again; BFS over delete in every life-cycle state (absent keys: rejected, state unchanged).",
          ILV_NOTE + "; " + SEQ_NOTE, "DESIGN.md §5/C04"),
- "C05": ("ilv", BASE + "; invariant Q on state snapshots at quiescence",
-         "Every schedule (up to the completed preemption bound) of 10 client programs racing writes to one key against the real worker and sweeper; at the quiescent end of each execution the charged key ids and the stored entries must be in bijection and weight_used must be their sum. Exhaustive within the bound, not sampled.",
+ "C05": ("seq+ilv", SEQ + " (invariant Q in every quiescent state); " + BASE + "; invariant Q on state snapshots at quiescence",
+         "Invariant Q (charged key ids and stored entries in bijection, weight_used = their sum) in every quiescent state reachable over a 12-letter write / clock / sweep alphabet (depth 7 / 9, 2 and 4 expiry shards), and at the quiescent end of every schedule (up to the completed preemption bound) of 15 client programs racing writes to one key against the real worker and sweeper. Exhaustive within the bounds, not sampled.",
          ILV_NOTE, "DESIGN.md §5/C05"),
- "C06": ("exh", EXH + " (admission decision table on the real AdmissionPolicy, oracle per eviction round from events, estimates read back)",
-         "All enumerated (resident sequence, weights, access profile, incoming key) cases for W in 3..8: fast path, too-heavy rejection, and for every eviction round: sample size/distinctness/membership, victim is a coldest sample member, never hotter than the incoming key when evicted, eviction stops when space suffices, accepted iff enough space, totals.",
+ "C06": ("exh+seq+ilv", EXH + " (admission decision table on the real AdmissionPolicy, oracle per eviction round from events, estimates read back); " + SEQ + " through the read pipeline; " + BASE + " for the eviction loop racing the sweeper",
+         "All enumerated (resident sequence, weights, access profile, incoming key) cases for W in 3..8: fast path, too-heavy rejection, and for every eviction round: sample size/distinctness/membership, victim is a coldest sample member, never hotter than the incoming key when evicted, eviction stops when space suffices, accepted iff enough space, totals. Plus every schedule (up to the bound) of four programs in which the sweeper releases weight while the worker evicts: accepted => charged total within W; sweep finished before the first victim and enough space at the end => not rejected for lack of space.",
          "estimates are inputs (read back), ties may go either way; table bounds as listed in the evidence", "DESIGN.md §5/C06"),
  "C07": ("seq+ilv", SEQ + " + " + BASE + " (several puts of one key in flight)",
          "Key 1 is driven into every life-cycle state the sequential API reaches (never written, live, live+TTL, deleted, evicted, swept, expired-unswept); each of the four put variants is applied in each state and compared with the state snapshot before/after, readability being taken from a real read issued right before the put (which also settles the exact expiry instant); the same BFS binds the readability model to all seven read variants; under the scheduler, of several in-flight puts of one key (all variants) at most one is accepted and its entry is not overwritten.",
@@ -33,7 +33,7 @@ CHECKS = {
  "C08": ("seq+ilv", SEQ + " with a before/after entry oracle and a differential twin-cache oracle; " + BASE + " with the worker frozen",
          "The 11 request shapes x key states {absent, live, live+TTL, expired-unswept} x one preceding operation; readable keys: exactly the requested fields change; absent keys: behaves like the corresponding put (specification and twin cache); visibility at return and the soft-deleted state under the scheduler.",
          SEQ_NOTE + "; " + ILV_NOTE, "DESIGN.md §5/C08"),
- "C09": ("seq", SEQ,
+ "C09": ("seq+ilv", SEQ + " (incl. histories that start after a first TTL change); " + BASE + " for TTL changes and reads racing the sweeper",
          "Expected read derived from the specification-level ghost (latest accepted value/deadline) for every read variant in every state of a BFS over TTL puts, TTL upserts (add/change/remove), deletes, clock steps including a huge jump, sweeps present or withheld, 2 and 4 shards.",
          SEQ_NOTE + "; monotone clock; the instant now == expiry is unspecified", "DESIGN.md §5/C09"),
  "C10": ("seq+ilv", SEQ + " with an exact removed-set oracle on every tick transition; " + BASE,
@@ -48,7 +48,7 @@ CHECKS = {
  "C13": ("ilv", BASE + "; lifecycle flags are scheduling points",
          "shutdown() racing writers, readers and other shutdown calls with a command queue of size 1-2: calls invoked after a shutdown returned are refused, every acknowledgement completes with its real outcome or ShuttingDown consistently with the worker's dequeue log, shutdown itself returns (otherwise deadlock).",
          ILV_NOTE, "DESIGN.md §5/C13"),
- "C14": ("exh", EXH + " (packed 4-bit rows, FrequencyCounter, TinyLFU against exact counters)",
+ "C14": ("exh+seq", EXH + " (packed 4-bit rows, FrequencyCounter, TinyLFU against exact counters, clear() included); " + SEQ + " through builder, access buffers and the consumer thread",
          "All 256 byte values x neighbours x positions for the packed rows; every access stream over 3 hashes up to length 6-8 for each listed counter count (1..17, non-powers of two) and enumerated seed low bits against an exact count-min reference; TinyLFU across ageing windows against a reference fed with the door-keeper's answers.",
          "three hash values, listed counter counts, stream lengths as in the evidence", "DESIGN.md §5/C14"),
  "C15": ("ilv+seq", BASE + " (consumer optionally frozen, buffer index as data choice) with a conservation oracle; " + SEQ,
